@@ -742,10 +742,7 @@ pub fn run_tier(ctx: &CheckCtx, thorough: bool) -> CheckResult {
     let max_schedules: u64 = if thorough { 40_000 } else { 600 };
 
     // phase 1: measure every body on every schedule, unbounded
-    let mut all = bodies(thorough);
-    if std::env::var("VX_C13_NOLOCKS").is_ok() {
-        all.retain(|b| !b.has_locks());
-    }
+    let all = bodies(thorough);
     let infos: Mutex<Vec<Option<BodyInfo>>> = Mutex::new((0..all.len()).map(|_| None).collect());
     {
         let q: Mutex<VecDeque<usize>> = Mutex::new((0..all.len()).collect());
@@ -891,10 +888,15 @@ pub fn run_tier(ctx: &CheckCtx, thorough: bool) -> CheckResult {
     res.cov("distinct_nontrivial", a.classes.len() as u64);
     res.cov(
         "rule",
-        "a case = one grid cell = one Runner::run of (body, scheduler configuration incl. iteration budget, MaxSteps mode, n, max_time) in a worker process; \
-         bodies are first run unbounded on EVERY schedule by the exhaustive explorer under a counting wrapper, which gives each schedule's step need M (max steps since the last reset); \
-         grid: every explorer schedule replayed with budgets 1,2,3 and every built-in scheduler with budgets 0..5 (DFS also None) x n in [max(0,M-3), M+3] x {None, FailAfter(n), ContinueAfter(n)} x max_time in {None, 0}; \
-         distinct_nontrivial = distinct (body, relation of n to the body's M range, mode, scheduler kind, cut|fail|count|abort) classes in which, with max_time None, an execution was actually cut / the run actually failed on the bound / the returned count was judged on >= 1 execution",
+        format!(
+            "a case = one grid cell = one Runner::run of (body, scheduler configuration incl. iteration budget, MaxSteps mode, n, max_time) in a worker process; \
+         every body is first run unbounded on EVERY schedule by the exhaustive explorer under a counting wrapper, which gives each schedule's step need M (max number of answered decisions + draws since the last reset); \
+         grid: every explorer schedule replayed by an own fixed scheduler with budgets {}, plus budget 0, and every built-in scheduler (Random new/new_from_seed, PCT new/new_from_seed, DFS Some(k)/None, URW new/new_from_seed, RoundRobin with budgets 0..5; ReplayScheduler on explorer schedules) \
+         x n in [max(0,M-3), M+3] (bodies holding guards: [0, M+3]) x {{None, FailAfter(n), ContinueAfter(n)}} x max_time in {{None, Some(0)}}{}; \
+         distinct_nontrivial = distinct (body, relation of n to the body's M range, mode, scheduler kind, cut|fail|count|abort) classes in which, with max_time None, an execution was actually cut / the run actually failed on the bound / the returned count was judged on >= 1 execution / the process aborted",
+            if thorough { "1,2,3" } else { "1,3" },
+            if thorough { "" } else { " (quick: with max_time Some(0) only n = M-1 and M+1)" }
+        ),
     );
     res.cov("exhaustive", all_complete && !capped);
     res.cov("bodies", infos.len() as u64);
